@@ -5,8 +5,10 @@ correspondence driver: `setRules.Hash` (cty/set_internals.go `appendSetHashBytes
 `setRules.Less` (incl. its `RawEquals` pre-check).  No theorem depends on this
 file; the C08 theorems quantify over every `Env`.
 
-`%q` quoting (strconv.Quote) is modelled for ASCII strings only; a string with
-a non-ASCII character makes the hash `.unmodelled`.  Capsule members are not
+`%q` quoting (strconv.Quote) is modelled for ASCII strings and a small printable
+non-ASCII range only; any other character makes the hash `.unmodelled`, and the
+driver refuses values holding such strings up front (`stringsModelled`), because
+`Less` (a `Bool`) could not report it.  Capsule members are not
 modelled (their identity is a Go pointer).
 -/
 import CtyModel.Convert
@@ -25,7 +27,10 @@ def hexLower (n : Nat) : Char := if n < 10 then Char.ofNat (48 + n) else Char.of
 
 def quoteChar (c : Char) : Option (List Char) :=
   let n := c.toNat
-  if n ≥ 128 then none
+  if n ≥ 128 then
+    -- strconv.IsPrint: modelled only for Latin-1 letters / signs and the fullwidth
+    -- ASCII variants, all printable (written as themselves); anything else is not modelled
+    if (0xA1 ≤ n ∧ n ≤ 0xFF ∧ n ≠ 0xAD) ∨ (0xFF01 ≤ n ∧ n ≤ 0xFF5E) then some [c] else none
   else if c = '"' then some ['\\', '"']
   else if c = '\\' then some ['\\', '\\']
   else if 32 ≤ n ∧ n ≤ 126 then some [c]
@@ -156,6 +161,19 @@ def hashBytesF : Nat → Ty → Payload → Res (List UInt8)
           fun b => strBytes "<" ++ b ++ strBytes ">"
       | .capsule _, .caps => .ok (strBytes "«?»")
       | _, _ => .panic "unsupported type in set hash"
+end
+
+mutual
+/-- every string in the payload (values and map keys) can be quoted by the model -/
+def stringsModelled : Payload → Bool
+  | .s s => (quote s).isSome
+  | .seq vs | .sset _ vs => stringsModelledL vs
+  | .smap ks vs => ks.all (fun k => (quote k).isSome) && stringsModelledL vs
+  | .marked _ r => stringsModelled r
+  | _ => true
+def stringsModelledL : List Payload → Bool
+  | [] => true
+  | v :: vs => stringsModelled v && stringsModelledL vs
 end
 
 def setFuel (p : Payload) : Nat := 4 * p.depth + 8
